@@ -7,6 +7,14 @@ CHAIN_NOTE = ("Trusted base: the harness wallet/miner/reference models in /verif
               "Sampling, not enumeration: a clean batch is evidence, not proof.")
 
 CHECKS = {
+ "C19": dict(engine="wiresim", cat="fault_enumeration", ref="5/C19",
+   text="The real Codec / write_message / read_message / Handshake run on one end of a loopback socket whose other end and fragmentation are owned by the simulator (fragment i+1 is released when FIONREAD reports fragment i consumed). Message sequences over every type and protocol versions 1/2/3/1000 (header lists of 0..65 headers, archive + streamed attachment, unknown types) are delivered unfragmented, at every single split point, with random multi-splits and as a one-byte dribble and must be read back as the identical sequence; over-limit and wrong-magic frame headers of every type must be refused having consumed exactly 11 bytes and without a large allocation; the handshake must settle on min(version), refuse another genesis and itself.",
+   technique="deterministic simulation: lock-stepped loopback transport with enumerated fragmentation and frame-limit faults",
+   note="Trusted base: kernel loopback TCP; the harness copy of the documented per-type limits; inter-fragment gaps far below the I/O timeouts."),
+ "C11": dict(engine="wiresim", cat="exploration", ref="5/C11",
+   text="A simulated hostile peer feeds the real Codec (and, in a forked child, MerkleProof::from_hex) structure-aware mutations of real encodings of every message type at every protocol version: truncation + close, boundary values in every 64/32/16-bit window, tag sweeps, random bodies, inconsistent lengths, spliced bodies. The reader thread must not panic, must return after EOF, and no single allocation may exceed a small multiple of the per-type cap plus input length; decoded values go through the stateless pre-state checks (validate_read, segment root reconstruction against the archive header).",
+   technique="deterministic simulation: byzantine peer on a simulated stream transport with allocation and liveness oracles",
+   note="Trusted base: counting global allocator in the harness; release arithmetic; only single-message streams plus one split are explored per mutation."),
  "C09": dict(engine="crashsim", cat="fault_enumeration", ref="5/C09",
    text="Fault enumeration: for each scenario (plain extension with spends of several ages, header-then-block, losing fork block, reorg with spends, header-only reorg, compaction, compaction followed by a block, block after compaction) every labelled durable step is enumerated; a forked child opens a copy of the base directory, runs the operation and _exits at that step; the parent reopens the surviving directory and requires Chain::init Ok, head old/new/ancestor, validate(false), unspent set equal to the replayed ledger, an identical second reopen and convergence with an uninterrupted twin after re-delivery. Known, unrepaired defects are listed in known_findings.json and reported as KNOWN-FINDING.",
    technique="deterministic simulation: exhaustive crash-point enumeration with process-death fault injection and reopen oracle",
@@ -92,6 +100,8 @@ def main():
              "kind_free_text": "deterministic simulation of one prunable MMR backend against an unpruned reference"},
             {"name": "crashsim", "path": "/verif/sim/src/crashsim.rs", "serves_properties": [p for p in claimed if p == "C09"],
              "kind_free_text": "process-death fault enumeration at every labelled durable step, reopen oracle"},
+            {"name": "wiresim", "path": "/verif/sim/src/wiresim.rs", "serves_properties": [p for p in claimed if p in ("C11", "C19")],
+             "kind_free_text": "real p2p framing layer against a simulated peer over a lock-stepped loopback socket"},
             {"name": "chainsim", "path": "/verif/sim/src/chainsim.rs", "serves_properties": [p for p in claimed if CHECKS[p]["engine"] == "chainsim" or p == "C08"],
              "kind_free_text": "deterministic simulation of N real Chain nodes on a simulated network with byzantine inputs"},
         ],
